@@ -43,6 +43,8 @@ func init() {
 	regSafety("C03", mkC03, shC03)
 	replayers["C03"] = append(replayers["C03"], func(vals []int, keepLog bool) *sim.World {
 		return RunNestedRecovery(&ReplaySrc{Vals: vals}, mkC03(), keepLog)
+	}, func(vals []int, keepLog bool) *sim.World {
+		return RunNestedTx(&ReplaySrc{Vals: vals}, mkC03(), keepLog)
 	})
 	regSafety("C04", mkC04, shC04)
 	replayers["C04"] = append(replayers["C04"], func(vals []int, keepLog bool) *sim.World {
@@ -88,6 +90,21 @@ func TestC03(t *testing.T) {
 	rapid.Check(t, SafetyProp(e, mkC03, shC03, func(w *sim.World) bool {
 		return w.Stats["c03_pressure_after_lock"] > 0
 	}))
+	if t.Failed() {
+		return
+	}
+	// the nested view change inside OnTransaction / inside a timeout's recovery request (own message history)
+	rapid.Check(t, func(t *rapid.T) {
+		src := &RapidSrc{T: t}
+		w := RunNestedTx(src, mkC03(), false)
+		fatal := e.Report(w, src.Rec, func() string {
+			return RunNestedTx(&ReplaySrc{Vals: src.Rec}, mkC03(), true).Render()
+		})
+		e.Case(FPInts(src.Rec), w.Stats["c12_nested_view_change"] > 0, w.Stats, func() any { return sampleOf(w, src.Rec) })
+		if fatal != "" {
+			t.Fatalf("%s", fatal)
+		}
+	})
 	if t.Failed() {
 		return
 	}
